@@ -254,12 +254,8 @@ theorem insertObject_data {e e' : Engine} {o : Obj} (h : e.insertObject o = .ok 
     split at h <;> split at h
     all_goals (cases h <;> exact ⟨rfl, rfl⟩)
   | anp a =>
-    simp only [insertObject, insertANP] at h
-    split at h
-    · cases h
-    split at h
-    · cases h
-    simp only [Except.ok.injEq] at h; subst h; exact ⟨rfl, rfl⟩
+    have he := insertANP_eq (show e.insertANP a = .ok e' from h)
+    subst he; exact ⟨rfl, rfl⟩
   | banp b =>
     simp only [insertObject, insertBANP] at h
     split at h
@@ -421,8 +417,9 @@ theorem fold_keys_nodup {objs : List Obj} {e0 e : Engine} (h : objs.foldlM inser
     have hf : polFields s' = polFields s := hok
     rw [polFields_netpols hf, polFields_anpNames hf]; exact ⟨p1, p2⟩
 
-/-- the input has no conflict the insertion fold rejects (`Netpol.Properties.C19`); a property of
-the multiset of objects -/
+/-- the input has no conflict of keys, names or shape (`Netpol.Properties.C19`); a property of the
+multiset of objects. The insertion fold also refuses a priority outside 0..1000 or held already
+(`insertANP`): `fold_ok_iff` adds the two priority clauses, as `build_ok_iff` does. -/
 structure ConflictFree (objs : List Obj) : Prop where
   np : ((npsOf objs).map npKey).Nodup
   anp : ((anpsOf objs).map (·.name)).Nodup
@@ -455,15 +452,20 @@ theorem map_key_normNp (l : List NetPol) :
   simp only [Function.comp, normNp, npKey, npNs]
   split <;> rfl
 
-/-- the insertion fold succeeds exactly on conflict-free inputs -/
+/-- the insertion fold succeeds exactly on conflict-free inputs whose ANP priorities are pairwise
+distinct and within 0..1000 (`insertANP` refuses the others) -/
 theorem fold_ok_iff (objs : List Obj) :
-    (∃ e, objs.foldlM insertObject ({} : Engine) = .ok e) ↔ ConflictFree objs := by
+    (∃ e, objs.foldlM insertObject ({} : Engine) = .ok e) ↔ ConflictFree objs ∧
+      ((anpsOf objs).map (·.prio)).Nodup ∧ ∀ a ∈ anpsOf objs, a.validPriority = true := by
   constructor
   · rintro ⟨e, h⟩
     obtain ⟨f1, f2, f3, _⟩ := fold_policies h
     obtain ⟨k1, k2⟩ := fold_keys_nodup h ⟨by simp, by simp⟩
     have each := fold_ok_each h
-    refine ⟨?_, ?_, ?_, ?_, ?_⟩
+    have hperm : e.anps.Perm (anpsOf objs) := by simpa using fold_anps_perm h
+    obtain ⟨q1, q2⟩ := fold_prioInv h prioInv_empty
+    refine ⟨⟨?_, ?_, ?_, ?_, ?_⟩, ((hperm.map _).nodup_iff).mp q1,
+      fun a ha => q2 a (hperm.mem_iff.mpr ha)⟩
     · rw [f1] at k1
       simp only [List.nil_append] at k1
       rwa [map_key_normNp] at k1
@@ -478,16 +480,21 @@ theorem fold_ok_iff (objs : List Obj) :
     · intro p hp
       obtain ⟨e1, e2, h12⟩ := each _ (mem_podsOf.mp hp)
       exact (insertObject_ok h12).1
-  · intro h
+  · rintro ⟨h, hn, hv⟩
     exact fold_ok_of_conflict_free objs {} rfl (by simpa using h.np) (by simpa using h.anp)
-      (by simpa using h.banp) h.banpName h.pod
+      (by simpa using h.banp) h.banpName h.pod (by simpa using hn) hv
 
 /-- acceptance by the insertion fold does not depend on the order of the objects -/
 theorem fold_isOk_perm {objs objs' : List Obj} (hp : objs.Perm objs') :
     (∃ e, objs.foldlM insertObject ({} : Engine) = .ok e) ↔
       (∃ e, objs'.foldlM insertObject ({} : Engine) = .ok e) := by
   rw [fold_ok_iff, fold_ok_iff]
-  exact ⟨ConflictFree.perm hp, ConflictFree.perm hp.symm⟩
+  have ha := anpsOf_perm hp
+  constructor
+  · rintro ⟨hc, hn, hv⟩
+    exact ⟨hc.perm hp, ((ha.map _).nodup_iff).mp hn, fun a h => hv a (ha.mem_iff.mpr h)⟩
+  · rintro ⟨hc, hn, hv⟩
+    exact ⟨hc.perm hp.symm, ((ha.map _).nodup_iff).mpr hn, fun a h => hv a (ha.mem_iff.mp h)⟩
 
 /-! ### `sortANPs`, `resolveMissingNamespaces`, `build` -/
 
@@ -527,13 +534,16 @@ theorem build_ok_iff (objs : List Obj) :
       | ok e2 =>
         obtain ⟨_, hv, hn⟩ := sortANPs_ok hs
         have hperm : e1.anps.Perm (anpsOf objs) := by simpa using fold_anps_perm hf
-        refine ⟨(fold_ok_iff objs).mp ⟨e1, hf⟩, ((hperm.map _).nodup_iff).mp hn, ?_⟩
+        refine ⟨((fold_ok_iff objs).mp ⟨e1, hf⟩).1, ((hperm.map _).nodup_iff).mp hn, ?_⟩
         intro a ha
         have := hv a (hperm.mem_iff.mpr ha)
         unfold ANP.validPriority at this
         simpa using this
   · rintro ⟨hc, hn, hv⟩
-    obtain ⟨e1, hf⟩ := (fold_ok_iff objs).mpr hc
+    obtain ⟨e1, hf⟩ := (fold_ok_iff objs).mpr ⟨hc, hn, fun a ha => by
+      have := hv a ha
+      unfold ANP.validPriority
+      simpa using this⟩
     have hperm : e1.anps.Perm (anpsOf objs) := by simpa using fold_anps_perm hf
     obtain ⟨e2, hs⟩ := sortANPs_ok_of (e := e1)
       (fun a ha => by
